@@ -38,6 +38,7 @@ func sortedKeys(m map[string]bool) []string {
 }
 
 func (eng *Engine) verifyFunc(key string) *FuncReport {
+	resetNaming()
 	rep := &FuncReport{Key: key}
 	c := eng.contracts.Funcs[key]
 	fnKey := key
@@ -474,6 +475,7 @@ func builtinSym(s string) bool {
 }
 
 func (eng *Engine) lemmaObligation(name string) (*Obligation, error) {
+	resetNaming()
 	ax := eng.contracts.Axioms[name]
 	g, ex, err := eng.compileClosedEx(ax, true)
 	if err != nil {
@@ -553,6 +555,9 @@ func (eng *Engine) scriptR(o *Obligation, wantModel bool, relaxed bool) (string,
 }
 
 func (eng *Engine) script(o *Obligation, wantModel bool) (string, []string) {
+	if o.exec != nil && o.exec.hc != nil {
+		heapConsts = o.exec.hc
+	}
 	var hyps []*Term
 	if o.exec != nil {
 		hyps = append(hyps, o.exec.assumes[:o.NAssume]...)
@@ -592,6 +597,9 @@ func observables(goal *Term) []*Term {
 
 func (eng *Engine) reachScript(rep *FuncReport) string {
 	ex := rep.exec
+	if ex.hc != nil {
+		heapConsts = ex.hc
+	}
 	hyps := append([]*Term{}, ex.assumes[:rep.NAssumeEnd]...)
 	ax, _ := eng.relevantAxioms(append(hyps, rep.ReachPC), "", nil)
 	sc := &Script{Asserts: append(append(ax, hyps...), rep.ReachPC)}
